@@ -58,6 +58,10 @@ CHECKS = {
          "Generated file trees are added unsharded and sharded under varied chunkers, layouts, raw-leaves, CID versions, hash functions, wrap and replication settings. From the returned root the recorded blocks must be closed under links, hash to their CIDs, and read back byte-identical (tree shape included); sharded, unsharded and (for single files) go-unixfs importer roots must be equal; the pins must be exactly the root with the requested options and the block destinations, or meta + cluster-DAG + shards whose links partition the delivered blocks under the size limit with a max_depth that covers them; a BlockPut failure at call k must either fail the add without pinning the root or leave every block delivered.",
          "Component level: a hostless RPC client runs every destination locally, so per-destination delivery is not distinguished. The reference importer is go-unixfs/importer (go-ipfs itself is not installed) and only single-file inputs have a reference root.",
          "DESIGN.md §4 C13"),
+ "C07": ("exploration", "runtime authorization-matrix monitor: real Cluster peer on a real libp2p host, remote callers with rpc.NewClient, endpoints enumerated by reflection; plus a three-peer CRDT pubsub trust scenario with a control replica",
+         "Every RPC endpoint (found by reflection over the exported RPCAPI types at run time) is called by a trusted and an untrusted remote libp2p peer under Raft, CRDT with explicit list / empty list / trust-all, and after Trust/Distrust at run time; the answer's class (authorization error or not) is judged against rules held as data: untrusted callers reach at most ID/Version/PeerAdd, local-only endpoints are refused to every remote caller, Raft trusts everyone. In the pubsub scenario an untrusted peer's pins must reach a control replica that trusts it while the replica that does not trust it stays without them two rebroadcast rounds later; Trust makes it accept them, Distrust makes it ignore later ones.",
+         "Only the authorization class is judged, not success of authorized calls. Newly added endpoints are checked against the untrusted-caller rule only. The local-only list is data derived from the property text. Propagation to the control replica not reached within 30 s = inconclusive.",
+         "DESIGN.md §4 C07"),
 }
 
 ALL = ["C%02d" % i for i in range(1, 19)]
